@@ -16,6 +16,14 @@ Laws == /\ (kind = "scale" /\ NotConstant) => P!CenteredSumsToZero(X) /\ P!UnitV
         /\ (kind = "scale" /\ NotConstant) => LET st == P!ScaleFit(X, docenter, doscale, ddof) IN
                \A i \in DOMAIN X : P!ScaleApply(st, <<X[i]>>)[1] = P!ScaleApply(st, X)[i]
         /\ (kind = "poly" /\ P!Distinct(X) > degree) => \A i \in DOMAIN X : P!PolyApply(X, degree, <<X[i]>>)[1] = P!PolyApply(X, degree, X)[i]
+        \* homogeneity: standardising c.x (c > 0) gives what standardising x gives - the value (num / sqrt(scale2)) is compared through its
+        \* sign and its square; licenses the replay of power-of-two multiples of a vector at any magnitude
+        /\ (kind = "scale" /\ NotConstant /\ doscale) => \A c \in {<<2, 1>>, <<1, 2>>, <<3, 1>>} :
+               LET cx == [i \in DOMAIN X |-> P!RMul(c, X[i])]
+                   a == P!ScaleApply(P!ScaleFit(X, docenter, doscale, ddof), X)
+                   b == P!ScaleApply(P!ScaleFit(cx, docenter, doscale, ddof), cx)
+               IN \A i \in DOMAIN X : /\ P!RDiv(P!RMul(a[i][1], a[i][1]), a[i][2]) = P!RDiv(P!RMul(b[i][1], b[i][1]), b[i][2])
+                                       /\ (P!RLt(a[i][1], P!Zero) <=> P!RLt(b[i][1], P!Zero))
 
 Out == IOEnv.OUT_FILE
 EmitCase == Emit =>
